@@ -492,6 +492,17 @@ pub fn run(args: &Args) -> i32 {
             cfgs.push(Cfg::Bits(2, p, len));
         }
     }
+    // longer strings: a generator / mutator that works word-wise or block-wise may treat the
+    // positions beyond the first word (or the last, partial word) differently
+    for len in [100usize, 200, 1000] {
+        cfgs.push(Cfg::Bits(0, 0.5, len));
+        cfgs.push(Cfg::Bits(1, 0.3, len));
+        cfgs.push(Cfg::Bits(2, 0.3, len));
+        cfgs.push(Cfg::Flip("WithRate/Vec<bool>", Some(0.3), len));
+        cfgs.push(Cfg::Flip("WithRate/Bitstring", Some(0.3), len));
+        cfgs.push(Cfg::Flip("WithOneOverLength/Bitstring", None, len));
+        cfgs.push(Cfg::Uniform(len % 4, len));
+    }
     for fl in 0..4 {
         for len in [70usize, 130] {
             cfgs.push(Cfg::UniformLags(fl, len));
@@ -518,11 +529,11 @@ pub fn run(args: &Args) -> i32 {
     let mut rep = run_shards(cfgs.len(), args.threads, 16 << 20, |i| {
         let mut rep = Report::new();
         match &cfgs[i] {
-            Cfg::Flip(kind, rate, len) => flip_config(kind, *rate, *len, n / (*len as u64).clamp(1, 8), args.seed, &mut rep),
+            Cfg::Flip(kind, rate, len) => flip_config(kind, *rate, *len, n / (*len as u64).clamp(1, 8) / (*len as u64 / 64).max(1), args.seed, &mut rep),
             Cfg::Umad(a, d, len) => umad_config(*a, *d, *len, n / (*len as u64).clamp(1, 8), args.seed, &mut rep),
             Cfg::UmadEmpty(c, a, e) => umad_empty_config(*c, *a, *e, n, args.seed, &mut rep),
-            Cfg::Uniform(fl, len) => uniform_config(*fl, *len, n / (*len as u64).clamp(1, 8), args.seed, &mut rep),
-            Cfg::Bits(w, p, len) => bitstring_config(*w, *p, *len, n / (*len as u64).clamp(1, 8), args.seed, &mut rep),
+            Cfg::Uniform(fl, len) => uniform_config(*fl, *len, n / (*len as u64).clamp(1, 8) / (*len as u64 / 64).max(1), args.seed, &mut rep),
+            Cfg::Bits(w, p, len) => bitstring_config(*w, *p, *len, n / (*len as u64).clamp(1, 8) / (*len as u64 / 64).max(1), args.seed, &mut rep),
             Cfg::Gene(k, c, s, v, ctor) => gene_config(*k, *c, *s, *v, *ctor, n / 2, args.seed, &mut rep),
             Cfg::UniformLags(fl, len) => uniform_xo_lags("C12/uniform-xo", *fl, *len, n / 10, args.seed, &mut rep),
             Cfg::FlipLags(kind, len) => flip_lags(*kind, *len, n / 10, args.seed, &mut rep),
@@ -538,7 +549,7 @@ pub fn run(args: &Args) -> i32 {
     rep.finish(
         args,
         "exploration",
-        "rate grid incl. 0 and 1 (exact) x genome lengths 1..64 x the stated number of seeded samples per configuration for bit-flip mutators (Vec<bool>, Bitstring), UMAD (tagged Vector; three constructors on the empty genome), uniform crossover (four flavours), Bitstring::random / random_with_probability / BoolGenerator, GeneGenerator (all six public constructors, owning and borrowing; 1..31 instructions default close probability; explicit close probabilities; uniform and skewed instruction distributions; direct and through a Plushy collection generator). distinct_nontrivial = distinct configurations",
+        "rate grid incl. 0 and 1 (exact) x genome lengths 1..64 (plus 100, 200, 1000 for a subset) x the stated number of seeded samples per configuration for bit-flip mutators (Vec<bool>, Bitstring), UMAD (tagged Vector; three constructors on the empty genome), uniform crossover (four flavours), Bitstring::random / random_with_probability / BoolGenerator, GeneGenerator (all six public constructors, owning and borrowing; 1..31 instructions default close probability; explicit close probabilities; uniform and skewed instruction distributions; direct and through a Plushy collection generator). distinct_nontrivial = distinct configurations",
         false,
         &[
             "a bias below the stated resolution is invisible to this monitor",
